@@ -104,10 +104,13 @@ def op_case(ctx, LP, rng):
         tol = EPS * la_l1(A) * (abs(F(c)) + 1)
     elif op == "add":
         py = py_call(lambda: a + b); mo = d.ask("la.add %s %s" % (enc_la(A), enc_la(B)))
+        tol = EPS * (la_l1(A) + la_l1(B))
     elif op == "addp":
         py = py_call(lambda: a + p); mo = d.ask("la.addp %s %s" % (enc_la(A), enc(pc, pd)))
+        tol = EPS * (la_l1(A) + l1(pc) + 1)
     elif op == "sub":
         py = py_call(lambda: a - b); mo = d.ask("la.sub %s %s" % (enc_la(A), enc_la(B)))
+        tol = EPS * (la_l1(A) + la_l1(B))
     elif op == "neg":
         py = py_call(lambda: -a); mo = d.ask("la.neg %s" % enc_la(A))
     elif op == "conj":
